@@ -16,6 +16,7 @@ KNOWN = os.path.join(VERIF, "known_findings.txt")
 
 class Ctx:
     def __init__(self, tier="quick", config="all"):
+        config = os.environ.get("SDLINT_CONFIG", config)
         self.tier = tier
         self.t0 = time.time()
         self.fdir, self.sha, self.reused = facts.build_facts(config)
@@ -132,7 +133,18 @@ class Report:
     def finish(self):
         prop = self.prop
         ctx = self.ctx
-        evdir = os.path.join(VERIF, "evidence")
+        # checker self-test on the fixture twins (every run)
+        try:
+            import fixtures
+            ok, res = fixtures.run_selftest()
+        except Exception as e:  # fail closed
+            ok, res = False, [{"rule": "self-test", "fixture": "-", "ok": False, "got": repr(e)}]
+        self.extra["fixtures"] = {"ok": ok, "results": res}
+        if not ok:
+            badf = [r for r in res if not r["ok"]]
+            self.violations.append(Violation("fixtures | self-test", "/verif/fixtures/fx_rules", "self-test",
+                                             "checker self-test failed: %s" % badf[:4]))
+        evdir = os.environ.get("SDLINT_EVIDENCE") or os.path.join(VERIF, "evidence")
         os.makedirs(evdir, exist_ok=True)
         vdir = os.path.join(evdir, "%s.violations" % prop)
         if os.path.isdir(vdir):
